@@ -119,17 +119,21 @@ class C20(Prop):
         real = c["pool"]["kind"] == "real"
         pts = c["faults"]
         if real:
+            # nested inside the worker's per-case wall cap: keep its remaining time
+            outer_left = signal.getitimer(signal.ITIMER_REAL)[0]
             old = signal.signal(signal.SIGALRM, _alarm)
-            signal.alarm(120)
+            signal.setitimer(signal.ITIMER_REAL, 120)
         try:
             out = runner.run_call(c, record=False)
         except RealPoolHang:
-            signal.alarm(0)
+            runner.abandon_call()
             return None, [("C20:hang_realpool", "the call did not return within 120 s under the real pool")]
         finally:
             if real:
-                signal.alarm(0)
+                signal.setitimer(signal.ITIMER_REAL, 0)
                 signal.signal(signal.SIGALRM, old)
+                if outer_left > 0:
+                    signal.setitimer(signal.ITIMER_REAL, max(1.0, outer_left - 1))
         f = []
         if pts:
             kinds = {p["kind"] for p in pts}
